@@ -3,6 +3,24 @@ package main
 func buildProperties() []Property {
 	return []Property{
 		{
+			ID: "C17", Title: "DCG translation preserves the language and the threading of the remainder",
+			Decides:    "a necessary condition of 'leaves exactly the unconsumed remainder': in every entry of the construct table and in the non-terminal/terminal helpers the remainder is reachable from the input list over the hidden-argument pairs handed to sub-translations and constructed goals, every fresh difference-list variable is fed by that threading, and the rule translator connects head and body through its fresh variables. This is the thinnest claim of the set.",
+			NotDecided: "language preservation, argument bindings, cut and negation semantics inside bodies.",
+			Rules: []RuleDef{
+				{"R-DCG-THREAD", 14, ruleDCGThread},
+			},
+		},
+		{
+			ID: "C06", Title: "Text written by writeq/write_canonical reads back as the same term",
+			Decides:    "agreement of the writer's and the reader's tables and exactness of the number paths: every escape the writer can emit is accepted by the lexer class, matched by the reader's pattern and mapped back to the same character; quote, backslash and control characters always trigger escaping; floats are written with the shortest round-tripping representation and read by one correctly rounding conversion; write_term/3 and read_term/3 use the VM's one operator table.",
+			NotDecided: "bracketing/spacing correctness for operator contexts - the heart of the round trip - which depends on pairs (context operator, operand) over all tables.",
+			Rules: []RuleDef{
+				{"R-ESCAPE-TABLES", 12, ruleEscapeTables},
+				{"R-FLOAT-TEXT", 2, ruleFloatText},
+				{"R-OPS-SOURCE", 4, ruleOpsSource},
+			},
+		},
+		{
 			ID: "C16", Title: "Relational built-ins enumerate exactly their relation in every call mode",
 			Decides:    "the clause 'text measured in characters, not bytes': in the atom-processing builtins (resolved from the registration calls) a string obtained from an atom is measured and indexed only through []rune or range offsets; its byte length feeds only capacities and zero tests; it is sliced only at offsets produced by ranging over the same string.",
 			NotDecided: "completeness and exactly-once enumeration in every mode - behavioural.",
